@@ -8,7 +8,7 @@ from __future__ import annotations
 import numpy as np
 
 from .. import circmon, emumon, twinmon
-from ..gen import Builder, pick_phase, pick_unit
+from ..gen import Builder, pick_phase, pick_unit, pick_seed
 from .c03 import random_state
 from .c05 import make_post_selection
 from .common import drain_into, merge_stats, setup
@@ -199,7 +199,7 @@ def history(ctx, lw, rng, kind):
                 if not observed_once and step != "read":
                     ctx.bucket("sample_before_read:" + kind)
                 observed_once = True
-                seed = int(rng.integers(1 << 30))
+                seed = pick_seed(rng)
                 if changed_since_obs:
                     ctx.bucket(changed_since_obs)
                     nontrivial = True
